@@ -243,6 +243,15 @@ func copyRegularFile(src, dst string, perm os.FileMode) error {
 	return dstFile.Close()
 }
 
+// overlaps reports whether one of the two local paths is the other or lies
+// below it.
+func overlaps(a, b string) bool {
+	sep := string(filepath.Separator)
+	a = strings.TrimSuffix(a, sep) + sep
+	b = strings.TrimSuffix(b, sep) + sep
+	return strings.HasPrefix(a, b) || strings.HasPrefix(b, a)
+}
+
 func (fs LocalFileSystem) Copy(ctx context.Context, src, dst string, options *CopyOptions) (created bool, err error) {
 	srcPath, err := fs.localPath(src)
 	if err != nil {
@@ -253,8 +262,12 @@ func (fs LocalFileSystem) Copy(ctx context.Context, src, dst string, options *Co
 		return false, err
 	}
 
-	// TODO: "Note that an infinite-depth COPY of /A/ into /A/B/ could lead to
-	// infinite recursion if not handled correctly"
+	// "Note that an infinite-depth COPY of /A/ into /A/B/ could lead to
+	// infinite recursion if not handled correctly"; replacing a resource
+	// with itself or with one of its members would destroy the source
+	if overlaps(srcPath, dstPath) {
+		return false, NewHTTPError(http.StatusForbidden, fmt.Errorf("webdav: source and destination overlap"))
+	}
 
 	srcInfo, err := os.Stat(srcPath)
 	if err != nil {
@@ -311,6 +324,10 @@ func (fs LocalFileSystem) Move(ctx context.Context, src, dst string, options *Mo
 	dstPath, err := fs.localPath(dst)
 	if err != nil {
 		return false, err
+	}
+
+	if overlaps(srcPath, dstPath) {
+		return false, NewHTTPError(http.StatusForbidden, fmt.Errorf("webdav: source and destination overlap"))
 	}
 
 	if _, err := os.Stat(dstPath); err != nil {
